@@ -621,8 +621,12 @@ def r_rte_wrap(model, rep):
     rs = [ev for ev in cx.events if ev.kind == "raise"]
     ok = len(rs) == 1 and not rs[0].loops and rs[0].value[0] == "call" and rs[0].value[1] == ("global", "RuntimeError") \
         and T.contains(rs[0].value, lambda x: x == ("attr", S, "compose_path"))
+    tp = facts.tuple_in_percent(model, f)
+    ok = ok and not tp
     rep.ob("R-RTE-WRAP", "Compose._find_metadata_file:RuntimeError", ok, site=cx.site(f.node),
-           msg="" if ok else "a missing file must raise RuntimeError naming compose_path")
+           msg="" if ok else ("a missing file must raise RuntimeError naming compose_path" + (
+               "; line %s interpolates parameter %r with %%, and a call site passes a tuple for it: the formatting raises TypeError "
+               "instead" % tp[0] if tp else "")))
     g = model.own_method("compose.Compose", "_load_metadata")
     gcx = facts.fctx(model, g)
     S = P(gcx.selfname)
